@@ -258,7 +258,15 @@ def run_shard(spec):
             # fault point: one node of the tree is swapped for a node whose rebuild raises; the
             # failed rebuild must leave every other field of the tree as it was, and after the
             # node is put back the document must render as before
+            # (several fault points per document when it carries comments: trivia that a failed
+            # rebuild may leave detached is what there is to lose)
+            rounds = 0
             if not d.contains_error and len(set(outs)) == 1 and rng.random() < 0.5:
+                rounds = 4 if ("#" in text or "/*" in text) else 1
+            n_wit = len(res["witnesses"])
+            for _round in range(rounds):
+                if len(res["witnesses"]) != n_wit:
+                    break   # the document may be damaged: later rounds would only repeat it
                 fault = inject_rebuild_fault(rng, d)
                 if fault is not None:
                     from nmverif.monitor.snapshot import snapshot
